@@ -10,6 +10,7 @@
 // function, from outside the run, from inside a timer callback; the harness notices that runLoop() returned — `P loop-exit` —
 // and runs the loop again on the same object), TimerPool calls with an empty std::function (`pnull`), ~TimerPool with pending
 // timers followed by a fresh pool (`pdestroy`).
+// Round 5: wide cases with the exit-timer slot (`wxslot`, `wxl <signed w>`): exitLoop() with negative counts through the real code.
 #include "vh.h"
 #include "vtime.h"
 #include <dlfcn.h>
@@ -283,7 +284,10 @@ int main(int argc, char **argv) {
             std::cout << "P ret=1 en=" << bits() << "\n"; pending_adv = false;
             if (slot_mode) return 1;     // one empty pass before the next op: if the exit timer fired in this pass the loop leaves now
         }
-        if (!pending_line.empty()) { std::cout << pending_line; pending_line.clear(); }
+        if (!pending_line.empty()) {
+            std::cout << pending_line; pending_line.clear();
+            if (slot_mode) return 1;     // wide case with the exit-timer slot: likewise one empty pass, so that `P loop-exit` comes before the next op
+        }
         std::string line;
         if (!std::getline(std::cin, line)) { reset_all(); eof = true; return 0; }
         auto w = vh::words(line);
@@ -302,7 +306,7 @@ int main(int argc, char **argv) {
         }
         bool is_pool_op = (w[0] == "pafter" || w[0] == "pevery" || w[0] == "pcancel" || w[0] == "pcleanup" || w[0] == "pat" || w[0] == "wall" || w[0] == "pnull" || w[0] == "pdestroy");
         bool is_plain_op = (w[0] == "new" || w[0] == "init" || w[0] == "en" || w[0] == "dis" || w[0] == "del" || w[0] == "xslot" || w[0] == "xl" || w[0] == "xlo");
-        bool is_wide_op = (w[0] == "wnew" || w[0] == "winit" || w[0] == "wen" || w[0] == "wdis" || w[0] == "wdel");
+        bool is_wide_op = (w[0] == "wxslot" || w[0] == "wxl" || w[0] == "wnew" || w[0] == "winit" || w[0] == "wen" || w[0] == "wdis" || w[0] == "wdel");
         if ((is_pool_op && mode != 0 && mode != 2) || (is_plain_op && mode != 0 && mode != 1) || (is_wide_op && mode != 0 && mode != 3)) { std::cout << "bad-op\n"; return 1; }
         if (w[0] == "xslot" && w.size() == 1 && objs.empty()) {
             // object 0 stands for the loop's own exit timer (CommonLoop::sp_exit_timer_); its state is not visible through the API
@@ -369,17 +373,29 @@ int main(int argc, char **argv) {
             idle_eintr = (w[0] == "idlex");
             pending_adv = true;
             return 2;
+        } else if (w[0] == "wxslot" && w.size() == 1 && objs.empty()) {
+            // wide case (any signed millisecond count) with the loop's own exit timer as object 0
+            mode = 3; slot_mode = true;
+            objs.push_back(nullptr); scripts.emplace_back(); pool_kind.push_back('s'); pool_alive.push_back(false); pool_tok.emplace_back();
+            pending_line = "P ret=1 en=" + bits() + "\n";
+        } else if (w[0] == "wxl" && w.size() == 2 && slot_mode && mode == 3 && w[1].size() <= 20 && vh::to_i64(w[1], sn) && sn >= -(int64_t)MAXMS && sn <= (int64_t)MAXMS) {
+            // CommonLoop::exitLoop(milliseconds(sn)) with ANY signed count; 0 stops the loop at once (reported at once), every other
+            // count arms a one-shot exit timer (a negative one is due in the very next pass, or never once `now + count` wraps)
+            loop_tainted = true;
+            loop->exitLoop(std::chrono::milliseconds(sn));
+            if (sn == 0) std::cout << "P ret=1 en=" << bits() << "\n";
+            else pending_line = "P ret=1 en=" + bits() + "\n";
         } else if (w[0] == "wnew" && w.size() == 1) {
             mode = 3;
             make_plain(std::vector<Act>());
             pending_line = "P ret=1 en=" + bits() + "\n";
         } else if (w[0] == "winit" && w.size() == 4 && w[2].size() <= 20 && vh::to_i64(w[2], sn) && vh::to_u64(w[1], n) && n < objs.size()
-                   && (w[3] == "o" || w[3] == "p") && sn >= -(int64_t)MAXMS && sn <= (int64_t)MAXMS && !(sn == 0 && w[3] == "p")) {
+                   && (w[3] == "o" || w[3] == "p") && sn >= -(int64_t)MAXMS && sn <= (int64_t)MAXMS && !(sn == 0 && w[3] == "p") && !(slot_mode && n == 0)) {
             Act a; a.kind = 'i'; a.j = n; a.ms = 0; a.sms = sn; a.wide = true; a.oneshot = (w[3] == "o");
             mode = 3;
             int r = apply(a) ? 1 : 0;
             pending_line = "P ret=" + std::to_string(r) + " en=" + bits() + "\n";
-        } else if ((w[0] == "wen" || w[0] == "wdis" || w[0] == "wdel") && w.size() == 2 && vh::to_u64(w[1], n) && n < objs.size()) {
+        } else if ((w[0] == "wen" || w[0] == "wdis" || w[0] == "wdel") && w.size() == 2 && vh::to_u64(w[1], n) && n < objs.size() && !(slot_mode && n == 0)) {
             Act a; a.kind = w[0] == "wen" ? 'e' : (w[0] == "wdis" ? 'd' : 'x'); a.j = n; a.ms = 0; a.oneshot = false;
             mode = 3;
             int r = apply(a) ? 1 : 0;
